@@ -314,6 +314,55 @@ func runC12(c *core.Ctx) {
 		sizeRe := regexp.MustCompile(`\b` + e.size + `\b|ShuffleShardExpectedInstancesPerZone\(`)
 		var bad []string
 		seen := 0
+		// locals that hold the size or a value computed from it without a division (assigned on some path)
+		sized := map[types.Object]bool{}
+		mentions := func(in *an.Fn, x ast.Expr) bool {
+			if cn := in.Canon(x); sizeRe.MatchString(cn) && !strings.Contains(cn, " / ") && !strings.Contains(cn, " % ") {
+				return true
+			}
+			hit := false
+			ast.Inspect(x, func(n ast.Node) bool {
+				switch y := n.(type) {
+				case *ast.Ident:
+					if o := in.ObjOf(y); o != nil && sized[o] {
+						hit = true
+					}
+				case *ast.BinaryExpr:
+					if y.Op == token.QUO || y.Op == token.REM {
+						return false
+					}
+				case *ast.CallExpr:
+					if id, ok := y.Fun.(*ast.Ident); ok && id.Name == "len" {
+						return false
+					}
+				}
+				return true
+			})
+			return hit
+		}
+		for changed := true; changed; {
+			changed = false
+			fn.InspectDeep(func(n ast.Node) bool {
+				if as, ok := n.(*ast.AssignStmt); ok && len(as.Lhs) == len(as.Rhs) {
+					in := fn.LitFnAt(as)
+					for i, l := range as.Lhs {
+						id, ok := l.(*ast.Ident)
+						if !ok {
+							continue
+						}
+						o := in.ObjOf(id)
+						if b, isBasic := in.Info().TypeOf(as.Rhs[i]).Underlying().(*types.Basic); o == nil || sized[o] || !isBasic || b.Info()&types.IsInteger == 0 {
+							continue
+						}
+						if mentions(in, as.Rhs[i]) {
+							sized[o] = true
+							changed = true
+						}
+					}
+				}
+				return true
+			})
+		}
 		fn.InspectDeep(func(n ast.Node) bool {
 			be, ok := n.(*ast.BinaryExpr)
 			if !ok || !(be.Op == token.ADD || be.Op == token.MUL || be.Op == token.SHL) {
@@ -325,9 +374,8 @@ func runC12(c *core.Ctx) {
 			seen++
 			in := fn.LitFnAt(be)
 			for _, op := range []ast.Expr{be.X, be.Y} {
-				cn := in.Canon(op)
 				// a quotient or remainder of the size is far from the limit
-				if sizeRe.MatchString(cn) && !strings.Contains(cn, " / ") && !strings.Contains(cn, " % ") {
+				if mentions(in, op) {
 					bad = append(bad, fmt.Sprintf("%s at line %d", in.Canon(be), c.Prog.Fset.Position(be.Pos()).Line))
 					break
 				}
